@@ -162,6 +162,14 @@ func TestRaceCollection(t *testing.T) {
 				_, _ = c.Add("", fm(int32(i)), resource.WithGenIDIfAbsent(), resource.WithIDCallback(func(id string) { _ = len(id) }), resource.WithCreatedCallback(func() {}))
 			},
 			func(g, i int) {
+				// a write that is rejected after its id was generated: an update of "whatever id you come up with" without
+				// create-if-absent (documented to fail), and a create whose precondition fails
+				_, _ = c.Update("", fm(int32(i)), resource.WithGenIDIfAbsent())
+				_, _ = c.Update("", fm(int32(i)), resource.WithGenIDIfAbsent(), resource.WithCreateIfAbsent(), resource.WithExpectedCheck(func(proto.Message) error {
+					return status.Error(codes.FailedPrecondition, "not today")
+				}))
+			},
+			func(g, i int) {
 				_, _ = c2.Add("", fm(int32(i)), resource.WithGenIDIfAbsent())
 				if i%4 == 0 {
 					for _, m := range c2.List() {
